@@ -791,3 +791,63 @@ def _init(noise_kind, m, d=2):
 _init("matrix", 2)
 _init("matrix", 3)
 _init("scalar", 2)
+
+
+# ----------------------------------------------------------------------------------------------
+# reported hyper-parameters of the two multi-output classes: "one entry per objective, agreeing with the kernel".
+# gpytorch's kernel objects are stubs with the parameter shapes measured on gpytorch 1.12:
+#   multitask:          covar_module.data_covar_module.lengthscale (1, d)   [ONE ARD data kernel shared by the objectives]
+#                       covar_module.task_covar_module.var (m,)
+#   batch-independent:  covar_module.base_kernel.lengthscale (m, 1, d),  covar_module.outputscale (m,)
+# ----------------------------------------------------------------------------------------------
+def _mo_lsvar(cls, gpcls, d, m):
+    @task("C15", "%s.get_lengthscale_and_var[d=%d,m=%d]" % (cls, d, m))
+    def _t(t):
+        t.mode = "d=%d, m=%d; kernel parameters symbolic" % (d, m)
+        tt = lambda a: L.SArr(a.a, "f", "torch")
+        if gpcls == "MultitaskExactGPModel":
+            ls = tt(L.fresh_array("ls", (1, d)))
+            var = tt(L.fresh_array("var", (m,)))
+            cov = SObj("KernelStub", {"data_covar_module": SObj("KernelStub", {"lengthscale": ls}), "task_covar_module": SObj("KernelStub", {"var": var})})
+            own = lambda i: [ls.a[0, c] for c in range(d)]          # every objective uses the shared data kernel
+        else:
+            ls = tt(L.fresh_array("ls", (m, 1, d)))
+            var = tt(L.fresh_array("var", (m,)))
+            cov = SObj("KernelStub", {"base_kernel": SObj("KernelStub", {"lengthscale": ls}), "outputscale": var})
+            own = lambda i: [ls.a[i, 0, c] for c in range(d)]
+        gp = SObj(cls_ref(GP, gpcls), {"covar_module": cov})
+        obj = SObj(cls_ref(GP, cls), {"model": gp, "input_dim": d, "output_dim": m})
+        paths = t.run(GP, "GPyTorchMultioutputExactModel.get_lengthscale_and_var", [], self_val=obj)
+        t.no_raise(paths)
+
+        def goal(p):
+            if p.kind != "return" or not isinstance(p.value, tuple) or len(p.value) != 2:
+                return False
+            l_, v_ = L.as_arr(p.value[0]), L.as_arr(p.value[1])
+            if l_.ndim < 1 or l_.shape[0] != m or l_.size != m * d:
+                return False    # not one entry (row) per objective
+            fl = l_.flat()
+            return z3.And(*[V.R(fl[i * d + c]) == V.R(own(i)[c]) for i in range(m) for c in range(d)])
+
+        def goal_var(p):
+            if p.kind != "return" or not isinstance(p.value, tuple) or len(p.value) != 2:
+                return False
+            v_ = L.as_arr(p.value[1])
+            if v_.shape != (m,):
+                return False
+            return z3.And(*[V.R(v_.a[i]) == V.R(var.a[i]) for i in range(m)])
+        t.prove_paths("one_lengthscale_entry_per_objective_agreeing_with_the_kernel", paths, goal, replay=mo_lsvar_replay(cls, d, m))
+        t.prove_paths("one_variance_per_objective_agreeing_with_the_kernel", paths, goal_var)
+        t.implicit()
+    return _t
+
+
+def mo_lsvar_replay(cls, d, m):
+    def builder(mdl):
+        return ["exec(open('replays/known/C15_correlated_lengthscales_per_input_dimension.py').read())"] if cls.startswith("Correlated") else None
+    return builder
+
+
+for _d, _m in ((1, 2), (2, 2), (2, 3), (3, 2)):
+    _mo_lsvar("IndependentExactGPyTorchModel", "BatchIndependentExactGPModel", _d, _m)
+    _mo_lsvar("CorrelatedExactGPyTorchModel", "MultitaskExactGPModel", _d, _m)
